@@ -1,5 +1,5 @@
 (* C03 correspondence: cases as printed by harness/c03. *)
-From Verif Require Export Lib.Base Model.C03_ChainTime Model.C03_Controller.
+From Verif Require Export Lib.Base Model.C03_ChainTime Model.C03_Controller Model.C03_Spec.
 Open Scope N_scope.
 
 (* The altairDetails shadowing defect was repaired in the repository ("fix:" commit); the model is
@@ -112,7 +112,11 @@ Definition agree (cs : case) : bool :=
   match c_body cs with
   | BTime p probes slots epochs => agree_time p probes slots epochs
   | BSecs samples => forallb (fun s => (seconds_f64_trunc (fst s) =? snd s)%Z) samples
-  | BHist c init ops snaps al pl reorg _ => agree_hist c init ops snaps al pl reorg
+  | BHist c init ops snaps al pl reorg wf =>
+      agree_hist c init ops snaps al pl reorg &&
+      (* a history the harness declares well-formed lies inside the discipline of the
+         "no slot twice" theorem (Model/C03_Spec.v hist_ok_b), so that the theorem speaks about it *)
+      (if wf then (0 <? ct_spe (c_ct c)) && bounded_b c 0 && hist_ok_b shadowed c 0 (init_of c init) ops else true)
   | BMerge ds (Some out) =>
       list_match (fun m o => mduty_eqb m o && clens_agree m o) (merge_duties ds) out
   | BMerge ds None => false
@@ -382,12 +386,66 @@ Section PHist.
                                    end
                       | _ => true end) A.
 
+  (* Sync committee preparation jobs.  A job created by an op lies in the window of a sync period
+     the op is entitled to schedule: from the slot before the period's first slot (clamped to the
+     fork epoch, to slot 0 and to now) to two slots before the next period's first slot; it is
+     timed 1.5 slots ahead (time_ok) and covers exactly the validators the node names for that
+     period.  A direct scheduling call or refresh leaves no slot of the window without a job. *)
+  Definition fork_of (init : option (bool * N)) : bool * N :=
+    match init with
+    | Some (h, ae) => (h, ae)
+    | None => if c_have_agg c && negb (c_period c =? 0)
+              then match c_spec_altair c with Some f => (true, f) | None => (false, 0) end
+              else (false, 0)
+    end.
+  Definition sync_lo (fork cur P : N) : N :=
+    let fe := N.max (N.max (P * c_period c) fork) (ep_of cur) in
+    N.max (fe * spe - 1) cur.          (* truncated subtraction: there is no slot before slot 0 *)
+  Definition sync_hi (fork P : N) : N := N.max ((P + 1) * c_period c) fork * spe - 2.
+  Definition exp_sync (e_ : env) (P : N) : payload :=
+    map (fun v => (v, 0, 0)) (sort_by (fun v => v) (dedup (alookup (e_sync e_) P))).
+
+  Definition sync_periods (o : op) (cur : N) : list (N * bool) :=      (* (period, notCurrentSlot) *)
+    let P := ep_of cur / c_period c in
+    match o with
+    | SchedSync ep nc => [(ep / c_period c, nc)]
+    | RefreshSync ep => [(ep / c_period c, false)]
+    | Start => [(P, true); (P + 1, true)]
+    | Tick | Head _ _ _ => [(P, false); (P + 1, false)]
+    | _ => []
+    end.
+
+  Definition sync_new_ok (fork : N) (e_ : env) (cur : N) (ps : list (N * bool)) (j : job) : bool :=
+    match j_name j with
+    | JSync s =>
+        e_vals e_ && (fork <=? ep_of cur) &&
+        existsb (fun pn => let '(P, nc) := pn in
+                   (sync_lo fork cur P <=? s) && (s <=? sync_hi fork P) && negb ((s =? cur) && nc) &&
+                   pay_eqb (j_pay j) (exp_sync e_ P) &&
+                   negb (match exp_sync e_ P with [] => true | _ => false end)) ps
+    | _ => true
+    end.
+
+  Definition sync_complete (handling : bool) (fork : N) (o : op) (e_ : env) (cur : N) (A : table) : bool :=
+    let direct := match o with SchedSync _ _ => true | RefreshSync _ => handling | _ => false end in
+    if negb direct then true else
+    forallb (fun pn => let '(P, nc) := pn in
+               if e_vals e_ && (fork <=? ep_of cur) && negb (match exp_sync e_ P with [] => true | _ => false end)
+               then forallb (fun s => ((s =? cur) && nc) || texists A (JSync s)) (slot_range (sync_lo fork cur P) (sync_hi fork P))
+               else true) (sync_periods o cur).
+
+  Definition sync_step_ok (init : option (bool * N)) (o : op) (e_ : env) (cur : N) (B A : table) : bool :=
+    let '(handling, fork) := fork_of init in
+    forallb (fun j => same_job B j || sync_new_ok fork e_ cur (sync_periods o cur) j) A &&
+    sync_complete handling fork o e_ cur A.
+
   Fixpoint walk (init : option (bool * N)) (k : tracker) (B : table) (ops : list op) (tabs : list table) : bool :=
     match ops, tabs with
     | [], [] => true
     | o :: ops', A :: tabs' =>
         let B' := match o with Start => [] | _ => B end in     (* a restart begins with an empty scheduler *)
         step_ok o (k_env k) (k_cur k) (touches k o B') B' A && tick_ok k o A && sync_ok init A &&
+        sync_step_ok init o (k_env k) (k_cur k) B' A &&
         walk init (track k o) A ops' tabs'
     | _, _ => false
     end.
